@@ -348,6 +348,22 @@ func ruleMatchCells(p *Program, r *Reporter) {
 		matchCellsByEvaluation(p, r, a)
 		return
 	}
+	// read from the text first; where the text is not in the expected form
+	// (one clause for both operators with the answer turned round, say) the
+	// cells are decided by evaluation instead
+	outer := r
+	r = &Reporter{rule: outer.rule, prog: outer.prog}
+	defer func() {
+		for _, o := range r.obls {
+			if o.Verdict == Undecided {
+				matchCellsByEvaluation(p, outer, a)
+				return
+			}
+		}
+		for _, o := range r.obls {
+			outer.add(o.Verdict, o.Key, o.Pos, o.Detail, o.Nontrivial)
+		}
+	}()
 	for _, spec := range []struct {
 		op        string
 		onMatch   string
